@@ -44,6 +44,17 @@ def template(kind='vars', extra='', lit=None):
             src = SRC_VARS.replace('overlap=ov>', 'overlap=ov reverse_expr="rv0">') % extra
         elif kind == 'plainrv0':
             src = SRC_PLAIN.replace('<dtml-in seq>', '<dtml-in seq reverse_expr="rv0 and rv0">') % extra
+        elif kind == 'pfx':            # prefix=b, every variable read under its underscore spelling, on every element
+            row = ROW % extra
+            for a, b in (('sequence-number', 'b_number'), ('previous-sequence-start-number', 'b_previous_sequence_start_number'),
+                         ('previous-sequence-end-number', 'b_previous_sequence_end_number'),
+                         ('next-sequence-start-number', 'b_next_sequence_start_number'),
+                         ('next-sequence-end-number', 'b_next_sequence_end_number'),
+                         ('<dtml-var previous-sequence>', '<dtml-var b_previous_sequence>'),
+                         ('<dtml-var next-sequence>', '<dtml-var b_next_sequence>'),
+                         ('sequence-start', 'b_start'), ('sequence-end', 'b_end')):
+                row = row.replace(a, b)
+            src = '<dtml-in seq start=st end=en size=sz orphan=orp overlap=ov prefix=b>' + row + '<dtml-else>EMPTY</dtml-in>'
         elif kind == 'lit':
             src = ('<dtml-in seq start=%d end=%d size=%d orphan=%d overlap=%d>' % lit +
                    ROW % extra + '<dtml-else>EMPTY</dtml-in>')
